@@ -121,3 +121,76 @@ def cond_atoms(prog, vg, truth, uncast):
     out = []
     indexsites.atoms_of_cond(cf, Rc, vg['cond'], truth, out)
     return [(uncast(substitute(l, vg['subst'])), op, uncast(substitute(r, vg['subst'])), vg['call']) for l, op, r, _ in out]
+
+
+_rcache = {}
+
+
+def reason_summary(prog, usr):
+    """a checker that reports instead of throwing: the body is a sequence of `if (cond) return <something>;` (and
+    declarations, loops) ending in `return nullptr / 0 / false / ""`; a null result establishes the negation of every
+    top-level condition.  -> [cond node] or None"""
+    key = (id(prog), usr)
+    if key in _rcache:
+        return _rcache[key]
+    _rcache[key] = None
+    f = prog.funcs.get(usr)
+    if f is None or f.implicit or f.body is None or f.kind in ('ctor', 'dtor'):
+        return None
+    if not (f.rec.get('internal') or '(anonymous namespace)' in f.qname or f.rec.get('access') in ('private', 'protected')):
+        return None
+    body = f.nodes[f.body]
+    if body['k'] != 'CompoundStmt' or not body['ch']:
+        return None
+    last = f.nodes[body['ch'][-1]]
+    if last['k'] != 'ReturnStmt' or not last.get('ch'):
+        return None
+    lv = f.nodes[f.strip(last['ch'][0], 'all')]
+    null = lv['k'] in ('CXXNullPtrLiteralExpr', 'GNUNullExpr') or (lv.get('cv') is not None and str(lv.get('cv')) in ('0', 'False', 'false')) or \
+        (lv['k'] == 'CXXBoolLiteralExpr' and not lv.get('v'))
+    if not null:
+        return None
+    guards = []
+    for c in body['ch'][:-1]:
+        n = f.nodes[c]
+        if n['k'] == 'IfStmt' and 'else' not in n:
+            th = f.nodes[f.strip(n['then'], 'noop')]
+            thl = f.nodes[th['ch'][-1]] if th['k'] == 'CompoundStmt' and th['ch'] else th
+            if thl['k'] == 'ReturnStmt' and thl.get('ch'):
+                rv = f.nodes[f.strip(thl['ch'][0], 'all')]
+                if rv['k'] not in ('CXXNullPtrLiteralExpr', 'GNUNullExpr') and not (rv.get('cv') is not None and str(rv.get('cv')) in ('0', 'False', 'false')):
+                    guards.append(n['cond'])
+                    continue
+            return None
+        if n['k'] in ('DeclStmt', 'ForStmt', 'WhileStmt', 'CXXForRangeStmt', 'NullStmt'):
+            continue
+        return None
+    if not guards:
+        return None
+    E = FX.get(prog)
+    if [e for e in E.events_of(f) if e[1] != 'local' and e[3] != 'io']:
+        return None
+    _rcache[key] = guards
+    return guards
+
+
+def reason_call(prog, f, i):
+    """node i (or the single-definition local it names) is the result of a call of a reason-returning checker
+    -> (call node, callee Func, guards) or None"""
+    from paths import local_init
+    n = f.nodes[f.strip(i, 'all')]
+    hops = 0
+    while n['k'] == 'DeclRefExpr' and n['decl'].get('dk') == 'local' and hops < 2:
+        ini = local_init(f, n['decl']['id'])
+        if ini is None:
+            return None
+        n = f.nodes[f.strip(ini, 'all')]
+        hops += 1
+    while n['k'] in ('CXXConstructExpr', 'ExprWithCleanups', 'MaterializeTemporaryExpr', 'ImplicitCastExpr') and (n.get('args') or n.get('ch')):
+        n = f.nodes[f.strip((n.get('args') or n.get('ch'))[0], 'all')]
+    if n['k'] not in ('CallExpr', 'CXXMemberCallExpr') or not n.get('callee', {}).get('inrepo'):
+        return None
+    gs = reason_summary(prog, n['callee']['usr'])
+    if not gs:
+        return None
+    return n, prog.funcs[n['callee']['usr']], gs
